@@ -52,8 +52,9 @@ def run_cli(binary, fmt, text, timeout=60, use_stdin=False, workdir=None, name=N
         args = [binary] + list(extra_args)
     t0 = time.time()
     try:
-        r = subprocess.run(args, input=(text if isinstance(text, bytes) else text.encode("utf-8", "surrogateescape")) if use_stdin else None,
-                           capture_output=True, timeout=timeout, env=env or RUN_ENV)
+        # stdin is always a pipe of our own (never inherited): the input when it is to be read from stdin, else empty
+        data = (text if isinstance(text, bytes) else text.encode("utf-8", "surrogateescape")) if (use_stdin or extra_args) else b""
+        r = subprocess.run(args, input=data, capture_output=True, timeout=timeout, env=env or RUN_ENV)
         rc, out, err, to = r.returncode, r.stdout, r.stderr, False
     except subprocess.TimeoutExpired as e:
         rc, out, err, to = None, e.stdout or b"", e.stderr or b"", True
